@@ -214,3 +214,56 @@ def rule_memo(ctx, prop, rule, regs):
     if not memo:
         rr.ok('no memoised function reachable', '', nontrivial=False)
     return rr
+
+
+def rule_cachekey(ctx, prop, rule, modules):
+    """`if K not in D: D[K] = V` with a computed key: the key must mention every
+    local the cached value is computed from (otherwise two different values
+    share one slot)."""
+    from ..model import own_nodes, norm_src
+    from ..util import key_of
+    rr = RuleResult(prop, rule, 'TAB',
+                    'a per-call cache key determines the cached value', floor=1)
+    for rel in modules:
+        m = ctx.project.module(rel)
+        for f in m.all_funcs:
+            loc = ctx.cg.locals_of(f)
+            for n in own_nodes(f):
+                if not (isinstance(n, ast.If) and isinstance(n.test, ast.Compare)
+                        and len(n.test.ops) == 1 and isinstance(
+                            n.test.ops[0], ast.NotIn)):
+                    continue
+                K, D = n.test.left, n.test.comparators[0]
+                if isinstance(K, ast.Constant) or not isinstance(
+                        D, (ast.Name, ast.Attribute)):
+                    continue
+                stores = [s for s in n.body if isinstance(s, ast.Assign) and any(
+                    isinstance(t, ast.Subscript) and norm_src(t.value) ==
+                    norm_src(D) and norm_src(t.slice) == norm_src(K)
+                    for t in s.targets)]
+                if not stores:
+                    continue
+                rr.instances += 1
+                V = stores[0].value
+                kn = {x.id for x in ast.walk(K) if isinstance(x, ast.Name)}
+                vn = {x.id for x in ast.walk(V) if isinstance(x, ast.Name)
+                      and x.id in loc}
+                dn = {x.id for x in ast.walk(D) if isinstance(x, ast.Name)}
+                # a bare-name key stands for the object itself
+                missing = sorted(vn - kn - dn)
+                if missing:
+                    rr.fail(key_of(f, 'cache key %s misses %s' % (
+                        norm_src(K), ','.join(missing))),
+                        '%s caches `%s` under the key `%s`, but the value is '
+                        'computed from %s, which the key does not identify: '
+                        'entries for different %s collide (e.g. same-titled '
+                        'sheets of two workbooks)' % (
+                            f.qualname, norm_src(V), norm_src(K),
+                            ', '.join(missing), '/'.join(missing)),
+                        file=rel, function=f.qualname, line=n.lineno)
+                else:
+                    rr.ok('%s: cache `%s[%s] = %s` - the key names everything '
+                          'the value is computed from' % (
+                              f.qualname, norm_src(D), norm_src(K),
+                              norm_src(V)), '%s:%d' % (rel, n.lineno))
+    return rr
